@@ -481,6 +481,10 @@ func Unwrap(node datamodel.Node) (ptrVal interface{}) {
 		val = node.val
 	case *_nodeRepr:
 		val = node.val
+	case *_uintNode:
+		val = node.val
+	case *_uintNodeRepr:
+		val = node.val
 	default:
 		return nil
 	}
